@@ -413,7 +413,63 @@ def build4(w, PRE, MOD, TXF):
         ensures=ens, raises={'QueryError': {}, 'InternalServerError': {}, 'InvalidReferenceError': {}},
         abstract={'if unit.in_type_args:': dict(assigns={}, modifies=['QU9.in_type_args_real_count']), 'if unit.warnings:': dict(assigns={}, modifies=[])},
         hints={'ext_funcs': XM})
+    build5(w)
     return w
+
+def build5(w):
+    """SQL sessions: dbstate.SQLTransactionState.apply tracks, statement by statement of an SQL script (and for the single statement of a native-protocol SQL request, seeded
+    with the transaction's live savepoints), the frontend settings a PostgreSQL transaction exposes.  Per transaction-control action, over the whole savepoint stack:
+      COMMIT makes the transaction's non-local settings the baseline and drops all savepoints; ROLLBACK keeps the baseline and drops all savepoints;
+      SAVEPOINT pushes (name, settings, local settings); ROLLBACK TO SAVEPOINT n restores the settings of the NEWEST savepoint named n, keeps it and everything older,
+      discards everything newer, and is rejected only when no live savepoint has that name."""
+    w.refclass('SQLTS', {'in_tx': 'bool', 'settings': 'Opt[Obj]', 'in_tx_settings': 'Opt[Obj]', 'in_tx_local_settings': 'Opt[Obj]', 'savepoints': 'Seq[Tuple[Opt[str],Opt[Obj],Opt[Obj]]]'}, DB, 'SQLTransactionState')
+    w.refclass('SQLU', {'tx_action': 'Opt[TxAction]', 'sp_name': 'Opt[str]', 'frontend_only': 'bool', 'set_vars': 'Opt[Obj]', 'is_local': 'bool'})
+    OLD = 'old(self.savepoints)'
+    ACT = lambda a: '(query_unit.tx_action is not None and query_unit.tx_action == TxAction.%s)' % a
+    PREFIX = lambda sp: 'len(%s) <= len(%s) and forall(0, len(%s), lambda k: %s[k] == %s[k])' % (sp, OLD, sp, sp, OLD)
+    NONE_AFTER = lambda sp: 'forall(len(%s), len(%s), lambda k: %s[k][0] != query_unit.sp_name)' % (sp, OLD, OLD)
+    def clauses(quant):
+        out = ['implies(%s, len(self.savepoints) >= 1 and len(self.savepoints) <= len(%s)%s)' % (ACT('ROLLBACK_TO_SAVEPOINT'), OLD,
+                                                                                                    (' and self.savepoints[len(self.savepoints) - 1] == %s[len(self.savepoints) - 1]' % OLD) if quant else ''),
+               'implies(%s, self.savepoints[len(self.savepoints) - 1][0] == query_unit.sp_name)' % ACT('ROLLBACK_TO_SAVEPOINT'),
+               # one arbitrary position K: kept iff it is not newer than the savepoint rolled back to
+               'implies(%s and 0 <= K and K < len(self.savepoints), self.savepoints[K] == %s[K])' % (ACT('ROLLBACK_TO_SAVEPOINT'), OLD),
+               'implies(%s and len(self.savepoints) <= K and K < len(%s), %s[K][0] != query_unit.sp_name)' % (ACT('ROLLBACK_TO_SAVEPOINT'), OLD, OLD),
+               'implies(%s and not query_unit.frontend_only and old(self.in_tx), self.in_tx_settings == self.savepoints[len(self.savepoints) - 1][1] and self.in_tx_local_settings == self.savepoints[len(self.savepoints) - 1][2])' % ACT('ROLLBACK_TO_SAVEPOINT'),
+               'implies(%s or %s, len(self.savepoints) == 0 and self.in_tx)' % (ACT('COMMIT'), ACT('ROLLBACK')),
+               'implies(%s and not query_unit.frontend_only, self.settings == old(self.in_tx_settings))' % ACT('COMMIT'),
+               'implies(%s and not query_unit.frontend_only, self.settings == old(self.settings))' % ACT('ROLLBACK'),
+               'implies(%s, len(self.savepoints) == len(%s) + 1 and self.savepoints[len(%s)][0] == query_unit.sp_name)' % (ACT('DECLARE_SAVEPOINT'), OLD, OLD),
+               'implies(%s and 0 <= K and K < len(%s), self.savepoints[K] == %s[K])' % (ACT('DECLARE_SAVEPOINT'), OLD, OLD),
+               'implies(not (%s or %s or %s or %s), self.savepoints == %s)' % (ACT('COMMIT'), ACT('ROLLBACK'), ACT('DECLARE_SAVEPOINT'), ACT('ROLLBACK_TO_SAVEPOINT'), OLD)]
+        return out
+    INV = ['len(self.savepoints) <= len(%s)' % OLD, 'forall(0, len(self.savepoints), lambda k: self.savepoints[k] == %s[k])' % OLD,
+           'forall(len(self.savepoints), len(%s), lambda k: %s[k][0] != query_unit.sp_name)' % (OLD, OLD),
+           'self.in_tx == old(self.in_tx) and self.settings == old(self.settings)']
+    w.contract(DB, 'SQLTransactionState.apply', params={'self': 'SQLTS', 'query_unit': 'SQLU'}, returns='none', ghost={'K': 'int'},
+        modifies=['SQLTS.in_tx', 'SQLTS.settings', 'SQLTS.in_tx_settings', 'SQLTS.in_tx_local_settings', 'SQLTS.savepoints'],
+        ensures=clauses(True),
+        # rejected only when no live savepoint carries the name (checked at the raise: the whole old stack has been looked at)
+        raises={'TransactionError': {'only_if': ACT('ROLLBACK_TO_SAVEPOINT'), 'ensures': ['implies(0 <= K and K < len(%s), %s[K][0] != query_unit.sp_name)' % (OLD, OLD)]},
+                'AssertionError': {'only_if': ACT('DECLARE_SAVEPOINT')}},
+        loops={0: dict(fingerprint='while self.savepoints', invariant=INV)},
+        abstract={'if query_unit.frontend_only and query_unit.set_vars:': dict(assigns={}, modifies=['SQLTS.settings', 'SQLTS.in_tx_settings', 'SQLTS.in_tx_local_settings'],
+                      ensures=['implies(not query_unit.frontend_only, self.settings == old(self.settings) and self.in_tx_settings == old(self.in_tx_settings) '
+                               'and self.in_tx_local_settings == old(self.in_tx_local_settings))'])})
+    # second view, quantifier-free (one arbitrary stack position K throughout): refutes a wrong pop with a definite counter-model
+    INV_G = ['len(self.savepoints) <= len(%s)' % OLD, 'implies(0 <= K and K < len(self.savepoints), self.savepoints[K] == %s[K])' % OLD,
+             'implies(len(self.savepoints) <= K and K < len(%s), %s[K][0] != query_unit.sp_name)' % (OLD, OLD),
+             'self.in_tx == old(self.in_tx) and self.settings == old(self.settings)']
+    w.contract(DB, 'SQLTransactionState.apply', view='ground', params={'self': 'SQLTS', 'query_unit': 'SQLU'}, returns='none', ghost={'K': 'int'},
+        modifies=['SQLTS.in_tx', 'SQLTS.settings', 'SQLTS.in_tx_settings', 'SQLTS.in_tx_local_settings', 'SQLTS.savepoints'],
+        ensures=clauses(False),
+        # rejected only when no live savepoint carries the name (checked at the raise: the whole old stack has been looked at)
+        raises={'TransactionError': {'only_if': ACT('ROLLBACK_TO_SAVEPOINT'), 'ensures': ['implies(0 <= K and K < len(%s), %s[K][0] != query_unit.sp_name)' % (OLD, OLD)]},
+                'AssertionError': {'only_if': ACT('DECLARE_SAVEPOINT')}},
+        loops={0: dict(fingerprint='while self.savepoints', invariant=INV_G)},
+        abstract={'if query_unit.frontend_only and query_unit.set_vars:': dict(assigns={}, modifies=['SQLTS.settings', 'SQLTS.in_tx_settings', 'SQLTS.in_tx_local_settings'],
+                      ensures=['implies(not query_unit.frontend_only, self.settings == old(self.settings) and self.in_tx_settings == old(self.in_tx_settings) '
+                               'and self.in_tx_local_settings == old(self.in_tx_local_settings))'])})
 
 def scenarios(tier, seed, repo_root, outdir):
     """bounded stand-in: operation histories on the real Transaction / CompilerConnectionState vs a reference model"""
